@@ -31,8 +31,40 @@ func runC04(c *Ctx) {
 	c.Rule("C04.O", "the dedup LRU is owned by the polling goroutine", 1)
 	c.Rule("C04.N", "dedup window ≥ 1000", 1)
 	c.Rule("C04.F", "a worker forwards once", 7)
-	c.Rule("C04.P", "the proxy offers each ID exactly once and loses none", 7)
+	c.Rule("C04.P", "the proxy offers each ID exactly once and loses none", 8)
 	ruleNoServerDeadlines(c, p, "C04.P")
+	// … and the agent hands every listed ID to its polling loop: the stand-alone proxy offers
+	// an ID once, so an ID cut off a long list (a per-poll cap) is never fetched
+	if f := c.need(p, "C04.P", "agent/utils.ListPendingRequests"); f != nil {
+		bad := ""
+		n := 0
+		for _, r := range Returns(f) {
+			v := ReturnValue(r, 0)
+			if v == nil || IsNilConst(v) {
+				continue
+			}
+			n++
+			okSrc := true
+			for _, x := range Roots(v) {
+				if IsNilConst(x) {
+					continue
+				}
+				if CallResult(x, 0, ModPath+"/agent/utils.parseRequestIDs") == nil {
+					okSrc = false
+				}
+			}
+			SliceBack(v, func(x ssa.Value) bool {
+				if sl, isSl := x.(*ssa.Slice); isSl && (sl.High != nil || sl.Low != nil) {
+					okSrc = false
+				}
+				return true
+			})
+			if !okSrc {
+				bad = p.Pos(r.Pos())
+			}
+		}
+		c.Check("C04.P", "agent:every-listed-id-reaches-the-loop", p, f.Pos(), bad == "" && n > 0, "ListPendingRequests returns the parsed list as it is", "ListPendingRequests returns something other than the whole list parseRequestIDs produced (return at "+bad+"): IDs that the stand-alone proxy has handed out once are dropped and their clients never answered")
+	}
 
 	const lruGet = "(*github.com/golang/groupcache/lru.Cache).Get"
 	const lruAdd = "(*github.com/golang/groupcache/lru.Cache).Add"
